@@ -635,6 +635,8 @@ class Exec:
         raise Unsupported('unary ' + op)
 
     def tobool(self, v, sh):
+        if isinstance(v, RefVal):
+            v = self.read(v.path)
         if z3.is_expr(v):
             if z3.is_bool(v):
                 return v
